@@ -9,6 +9,14 @@ streams (through the Lean driver)
            initial snapshot after it (property oracle).
   gleak  : the same, but started from an arbitrary (synthetic) class-level state that the harness
            writes into the class attributes, and with every leaking event allowed: model only.
+           Registers of all four families (dimen, integer, glue, math glue) are assigned from literals and
+           copied from other registers (`\\thinmuskip=\\medmuskip`), and read as operands of number/dimen/glue
+           arguments, so every reader function's register branch runs.
+  ccache : the per-class caches '@locals' / '@arguments': families of real Macro classes (a class, classes
+           derived from it, contributing bases, siblings) taken from the live class hierarchy; the caches of the
+           family are cleared (fresh interpreter), then `locals()` / `arguments` are called on real instances in a
+           generated order (bases first, derived first, random, repeated).  model = Model.ClassCache.lookups on the
+           extracted hierarchy, spec = the uncached computation for each class.
 document level (extra_checks, stream `pair`)
   generated LaTeX documents A1..Ak;B (k<=4) processed in ONE fresh python subprocess; B (and every Ai)
   also processed ALONE in its own fresh subprocess; canonicalised toXML() (generated ids renumbered),
@@ -27,6 +35,8 @@ LEVEL_TEXT = ('Lean 4 theorems over a statement-by-statement model of every inte
               'documents may end inside math, boxes or lists) for the repaired variant, and for the current code under the explicit '
               'hypotheses "no earlier document assigns a register, loads article, or defines a column type" (the three recorded known '
               'findings, each with a kernel-checked counterexample); the pinned code has kernel-checked counterexamples for D5, D6a, D6b. '
+              'class_cache_transparent proves that the per-class caches @locals/@arguments (class-level state that is never reset) cannot be '
+              'observed: after any history of lookups every class gets exactly its uncached table (counterexample for a cache read by attribute lookup). '
               'The model is tied to the code by differential execution from arbitrary class-level states, and the document-level '
               'clause (toXML and rendered files of B after A1..Ak vs B alone in a fresh interpreter subprocess) is carried by the pair stream.')
 LEVEL_NOTE = ('Trusted: Lean kernel, harness/extract.py (class defaults read at import), the correspondence harness and its generators, '
@@ -40,15 +50,23 @@ ASSUMPTIONS = ['documents of the history are processed to completion (no excepti
 RULE = ('gstate/gleak: seeded histories of 1-5 event documents (structured math/box/list nesting, ~30% truncated so that they end inside '
         'math, a box or a list, ~15% malformed: stray closers, items outside lists); non-trivial = the history has >= 2 documents and an '
         'earlier document contains a state-touching event (math shift, box, list, argument, ifthen, class); distinct = distinct driver line. '
-        'pair: generated LaTeX documents; non-trivial = history of >= 1 earlier documents with B containing math, lists or tables')
+        'ccache: seeded families of <= 8 related real classes and 2-7 lookups; non-trivial = at least two different tables in the answers. '
+        'pair: generated LaTeX documents (sections, math, lists, the array/tabular/tabular*/longtable, eqnarray/eqnarray*/amsmath, bibliography and '
+        'float environment families, references incl. forward ones); non-trivial = history of >= 1 earlier documents with B containing math, lists or tables')
 EXHAUSTIVE = {}
 CASE_TIMEOUT = 30
 
 logging.disable(logging.CRITICAL)
 
-REGS = ['parindent', 'maxdepth', 'overfullrule', 'hoffset']
+# modelled registers of the four families: d = dimen, n = integer parameter, g = glue, m = math glue
+REGS = ['parindent', 'maxdepth', 'overfullrule', 'hoffset', 'tolerance', 'pretolerance', 'parskip', 'topskip', 'thinmuskip', 'medmuskip']
+FAM = 'ddddnnggmm'
+FAMILIES = [[i for i, f in enumerate(FAM) if f == c] for c in 'dngm']
+UNIT = {'d': 'pt', 'n': '', 'g': 'pt', 'm': 'mu'}
+SKIPREGS = [r for r, f in zip(REGS, FAM) if f in 'dg']
 PKGDIR = os.path.join(HARNESS, 'c17pkg')
-ARG_SRC = {'number': '\\magstep 2\\relax', 'dimen': '\\vskip 3pt\\relax', 'tok': '\\let\\vfa=b', 'args': '\\def\\vfb#1{x}',
+ARG_SRC = {'number': '\\magstep 2\\relax', 'dimen': '\\vskip 3pt\\relax', 'numreg': '\\magstep\\pretolerance\\relax',
+           'dimenreg': '\\vskip\\maxdepth\\relax', 'gluereg': '\\hskip\\topskip\\relax', 'tok': '\\let\\vfa=b', 'args': '\\def\\vfb#1{x}',
            'any': '\\openout\\vfc=bar ', 'optnone': '\\linebreak', 'normal': '\\textbf{}'}
 ARG_EL = {'magstep': 'number', 'vskip': 'dimen', 'let': 'tok', 'def': 'args', 'openout': 'any', 'linebreak': 'optnone', 'textbf': 'normal'}
 
@@ -84,6 +102,18 @@ def _pt(v):
     return int(round(f))
 
 
+def _val(v, fam):
+    """natural size of a register value as an integer (pt, plain number, or mu)"""
+    if fam in 'dg':
+        return _pt(v)
+    return int(round(float(v)))
+
+
+def _mk(n, fam):
+    from plasTeX import dimen, glue, muglue, count
+    return {'d': lambda: dimen('%dpt' % n), 'n': lambda: count(n), 'g': lambda: glue('%dpt' % n), 'm': lambda: muglue('%dmu' % n)}[fam]()
+
+
 def read_state():
     k = _K
     env = []
@@ -95,7 +125,7 @@ def read_state():
     cols = sorted(ord(n) if len(n) == 1 else 0 for n in k['ColumnType'].columnTypes if n not in k.get('cols_init', ()))
     return {'en': int(bool(k['PC'].enabled)), 'lv': int(k['PC']._enablelevel), 'db': int(bool(k['BeginMath'].disableMath)),
             'de': int(bool(k['EndMath'].disableMath)), 'env': ''.join(env) or '-', 'dp': int(getattr(k['List'], 'depth', 0)),
-            'regs': ','.join(str(_pt(c.value)) for c in k['regs']), 'ix': ix, 'cols': ','.join(map(str, cols)) or '-'}
+            'regs': ','.join(str(_val(c.value, f)) for c, f in zip(k['regs'], FAM)), 'ix': ix, 'cols': ','.join(map(str, cols)) or '-'}
 
 
 def snap_str(s):
@@ -124,7 +154,7 @@ def set_state(words):
     if hasattr(k['List'], 'depth') or dp:
         k['List'].depth = dp
     for i, c in enumerate(k['regs']):
-        c.value = k['reg_init'][i] if regs is None else dimen('%dpt' % regs[i])
+        c.value = k['reg_init'][i] if regs is None else _mk(regs[i], FAM[i])
     for c, (lvl, cnt) in zip(k['idx'], k['idx_init']):
         if ix:
             c.level, c.counter = k['Command'].SECTION_LEVEL, 'section'
@@ -226,7 +256,7 @@ def variant_bits():
 # ---------------------------------------------------------------- event documents on the real interpreter
 
 def render_events(words):
-    src, uses, stack = ['\\usepackage{ifthen}\\usepackage{verifcol}'], [], []
+    src, uses, stack = ['\\usepackage{ifthen}\\usepackage{verifcol}'], [], []      # uses: what each visible skip/magstep element stands for
     cols = []
     depth = 0
     for w in words:
@@ -238,12 +268,17 @@ def render_events(words):
         elif w == 'lb': src.append('\\begin{itemize}')
         elif w == 'le': src.append('\\end{itemize}')
         elif w == 'it': src.append('\\item ')
-        elif p[0] == 'as': src.append('\\%s=%spt\\relax' % (REGS[int(p[1])], p[2]))
+        elif p[0] == 'as': src.append('\\%s=%s%s\\relax' % (REGS[int(p[1])], p[2], UNIT[FAM[int(p[1])]]))
+        elif p[0] == 'cp': src.append('\\%s=\\%s\\relax' % (REGS[int(p[1])], REGS[int(p[2])]))
         elif p[0] == 'us':
-            src.append('\\hskip\\%s\\relax' % REGS[int(p[1])])
+            r = int(p[1])
+            src.append(('\\magstep\\%s\\relax' if FAM[r] == 'n' else '\\hskip\\%s\\relax') % REGS[r])
             if depth == 0:
-                uses.append(int(p[1]))
-        elif p[0] == 'ar': src.append(ARG_SRC[p[1]])
+                uses.append(('us', r))
+        elif p[0] == 'ar':
+            src.append(ARG_SRC[p[1]])
+            if depth == 0 and p[1] in ('number', 'dimen', 'numreg', 'dimenreg', 'gluereg'):
+                uses.append(('ar', p[1]))
         elif p[0] == 'dc': src.append('\\documentclass{%s}' % p[1])
         elif w == 'ix': src.append('\\printindex')
         elif p[0] == 'nc': src.append('\\verifnewcol{%s}' % chr(int(p[1])))
@@ -291,8 +326,8 @@ def run_event_doc(words, base):
     def flush():
         if text:
             s = ''.join(text)
-            m = re.fullmatch(r'=(-?\d+)pt', s)
-            out.append('tx:' + m.group(1) if m else 'tx?' + s)
+            m = re.fullmatch(r'=(-?\d+)(pt|mu)?', s)
+            out.append('tx:' + m.group(1) if m else 'tx:=' if s == '=' else 'tx?' + s)
             del text[:]
     try:
         for t in tex:
@@ -315,9 +350,14 @@ def run_event_doc(words, base):
             elif n == 'item': out.append('it:%d' % k['List'].counters.index(t.counter))
             elif n in REGS:
                 a = t.attributes or {}
-                out.append('as:%d:%d' % (REGS.index(n), _pt(a['value'])) if a.get('value') is not None else 'as0:%d' % REGS.index(n))
-            elif n == 'hskip':
-                out.append('us:%d:%d' % (uses.pop(0), _pt(t.attributes['size'])))
+                r = REGS.index(n)
+                out.append('as:%d:%d' % (r, _val(a['value'], FAM[r])) if a.get('value') is not None else 'as0:%d' % r)
+            elif n in ('hskip', 'magstep', 'vskip'):
+                kind, what = uses.pop(0)
+                if kind == 'us':
+                    out.append('us:%d:%d' % (what, _val(t.attributes['size' if n == 'hskip' else 'value'], FAM[what])))
+                else:
+                    out.append('ar:' + what)
             elif n in ARG_EL: out.append('ar:' + ARG_EL[n])
             elif n == 'documentclass': out.append('dc:' + str(t.attributes['name']))
             elif n == 'printindex':
@@ -343,6 +383,8 @@ def canon_ids(obs):
 
 
 def impl(case, aux):
+    if case.stream == 'ccache':
+        return impl_ccache(case)
     words = case.line.split()
     st, docs = words[1:words.index('|')], words[words.index('|') + 1:]
     hist, cur = [], []
@@ -364,7 +406,12 @@ def impl(case, aux):
 
 def judge(o):
     o.corr_ok = (o.impl == o.model)
-    if o.spec == '-' or o.case.stream == 'gleak':
+    if o.case.stream == 'ccache':
+        o.prop_ok = (o.impl == o.spec)
+        if not o.prop_ok:
+            o.note = ('a class sees a cached %s table that is not its own: what an environment/command means depends on which classes '
+                      'earlier documents used; classes: %s' % (CC_ATTR[o.case.meta['mode']], ', '.join(o.case.meta['family'])))
+    elif o.spec == '-' or o.case.stream == 'gleak':
         o.prop_ok = True
     else:
         a, b = canon_ids(o.impl).split(' ; '), o.spec.split(' ; ')
@@ -384,8 +431,138 @@ TOUCH = ('D', 'bo', 'lb', 'le', 'if', 'ar:', 'dc:', 'as:', 'nc:')
 
 
 def nontrivial(o):
+    if o.case.stream == 'ccache':
+        return len(set(o.spec.split(' ; '))) >= 2
     docs = o.case.line.split(' | ')[1].split(' ; ')
     return len(docs) >= 2 and any(w.startswith(TOUCH) for d in docs[:-1] for w in d.split())
+
+
+# ---------------------------------------------------------------- the per-class caches '@locals' / '@arguments' (stream ccache)
+
+CC_PACKAGES = ['amsmath', 'longtable', 'natbib', 'graphicx', 'color', 'array', 'ifthen', 'subfigure', 'float', 'listings', 'verbatim']
+CC_ATTR = {'L': '@locals', 'A': '@arguments'}
+_U = {}
+
+
+def universe():
+    """every statically defined Macro class of the base macros and some packages, by 'module:qualname'"""
+    if not _U:
+        import importlib
+        plasTeX = K()['plasTeX']
+        import plasTeX.Base
+        for p in CC_PACKAGES:
+            try:
+                importlib.import_module('plasTeX.Packages.' + p)
+            except Exception:
+                pass
+        by = {}
+        for c in plasTeX.subclasses(plasTeX.Macro):
+            mod = sys.modules.get(c.__module__)
+            o = mod
+            for part in c.__qualname__.split('.'):
+                o = getattr(o, part, None) if o is not None else None
+            if o is c and c.__module__.startswith('plasTeX'):
+                by[c.__module__ + ':' + c.__qualname__] = c
+        _U['by'] = by
+        _U['key'] = {c: k for k, c in by.items()}
+    return _U
+
+
+def cc_argsid(s):
+    """canonical form of a compiled argument string, compiled on a throw-away class"""
+    plasTeX = K()['plasTeX']
+    cache = _U.setdefault('argsid', {})
+    if s not in cache:
+        T = type('VerifArgs', (plasTeX.Macro,), {'args': s})
+        cache[s] = cc_canon_args(plasTeX.Macro.arguments.fget(T.__new__(T)))
+    return cache[s]
+
+
+def cc_canon_args(a):
+    return repr([(x.name, sorted((k, repr(v)) for k, v in x.options.items())) for x in a])
+
+
+def cc_own(c, mode):
+    """what the class body itself contributes: [(name, value)] in definition order"""
+    plasTeX = K()['plasTeX']
+    if mode == 'L':
+        return [(plasTeX.macroName(v), v) for v in vars(c).values() if plasTeX.ismacro(v)]
+    return [('args', cc_argsid(vars(c)['args']))] if isinstance(vars(c).get('args'), str) else []
+
+
+def cc_encode(fam, mode):
+    """number the classes that matter (the family and every base that contributes), names and values"""
+    U = universe()
+    classes = list(fam)
+    for c in fam:
+        for k in c.__mro__:
+            if k in U['key'] and k not in classes and cc_own(k, mode):
+                classes.append(k)
+    names, vals = {}, {}
+    words = []
+    for i, c in enumerate(classes):
+        own = []
+        for n, v in cc_own(c, mode):
+            own.append('%d=%d' % (names.setdefault(n, len(names)), vals.setdefault(v, len(vals))))
+        mro = [classes.index(k) for k in c.__mro__ if k in classes]
+        words.append('c%d:%s:%s' % (i, ','.join(map(str, mro)), ','.join(own) or '-'))
+    return classes, words, names, vals
+
+
+def gen_ccache(rng, mode):
+    U = universe()
+    plasTeX = K()['plasTeX']
+    pool = _U.setdefault('pool' + mode, sorted((c for c in U['key'] if cc_own(c, mode) and (mode == 'L' or c is not plasTeX.Macro)), key=lambda c: U['key'][c]))
+    root = rng.choice(pool)
+    if rng.random() < 0.6:       # prefer roots that have derived classes: that is where a cache can be inherited
+        roots = _U.setdefault('roots' + mode, [c for c in pool if any(d in U['key'] for d in c.__subclasses__())])
+        root = rng.choice(roots)
+    desc = [d for d in plasTeX.subclasses(root)[1:] if d in U['key']]
+    fam = [root] + rng.sample(desc, min(len(desc), rng.randint(0, 4)))
+    for c in list(fam):          # contributing bases, and sometimes a sibling branch
+        for k in c.__mro__[1:]:
+            if k in U['key'] and k not in fam and cc_own(k, mode) and k is not plasTeX.Macro and rng.random() < 0.7:
+                fam.append(k)
+                sib = [d for d in k.__subclasses__() if d in U['key'] and d not in fam]
+                if sib and rng.random() < 0.4:
+                    fam.append(rng.choice(sib))
+    fam = fam[:8]
+    n = rng.randint(2, 7)
+    r = rng.random()
+    seq = [rng.randrange(len(fam)) for _ in range(n)]
+    if r < 0.45:      # bases before the classes derived from them
+        seq.sort(key=lambda i: len(fam[i].__mro__))
+    elif r < 0.6:
+        seq.sort(key=lambda i: -len(fam[i].__mro__))
+    classes, words, _, _ = cc_encode(fam, mode)
+    return Case('ccache', '0 %s | %s' % (' '.join(words), ' '.join(map(str, seq))),
+                {'mode': mode, 'family': [U['key'][c] for c in fam]})
+
+
+def impl_ccache(case):
+    U = universe()
+    plasTeX = K()['plasTeX']
+    mode = case.meta['mode']
+    fam = [U['by'][k] for k in case.meta['family']]
+    classes, words, names, vals = cc_encode(fam, mode)
+    head, seq = case.line.split(' | ')
+    if head.split()[1:] != words:
+        return 'err:hierarchy-changed'
+    for c in fam:                # a fresh interpreter: no class has cached anything yet
+        for k in c.__mro__:
+            if CC_ATTR[mode] in vars(k):
+                delattr(k, CC_ATTR[mode])
+    out = []
+    for i in seq.split():
+        c = classes[int(i)]
+        obj = c.__new__(c)
+        if mode == 'L':
+            t = [(names.get(n, '?'), vals.get(v, '?')) for n, v in plasTeX.Macro.locals(obj).items()]
+        else:
+            t = [(0, vals.get(cc_canon_args(plasTeX.Macro.arguments.fget(obj)), '?'))]
+        t = [x for x in t if x[0] != '?'] + [x for x in t if x[0] == '?']
+        out.append(','.join('%s=%s' % x for x in sorted(t, key=lambda x: (x[0] == '?', x[0]))) or '-')
+    return ' ; '.join(out)
 
 
 # ---------------------------------------------------------------- generation of event documents
@@ -398,7 +575,7 @@ def gen_inner(rng, depth):
         if r < 0.3: out += ['D'] + (['us:%d' % rng.randrange(4)] if rng.random() < 0.5 else []) + ['D']
         elif r < 0.4: out += ['D', 'D', 'pm', 'D', 'D']
         elif r < 0.5: out.append('D')
-        elif r < 0.6: out.append('us:%d' % rng.randrange(4))
+        elif r < 0.6: out.append('us:%d' % rng.randrange(8))
         elif r < 0.75: out.append('ar:' + rng.choice(list(ARG_SRC)))
         elif r < 0.85: out.append('pm')
         elif depth < 2: out += ['bo'] + gen_inner(rng, depth + 1) + ['bc']
@@ -424,7 +601,7 @@ def gen_body(rng, depth, leaky, inlist, havecls):
                     out += gen_body(rng, depth + 1, leaky, True, havecls)
             out.append('le')
         elif r < 0.58 and inlist: out.append('it')
-        elif r < 0.66: out.append('us:%d' % rng.randrange(4))
+        elif r < 0.66: out.append('us:%d' % rng.randrange(8))
         elif r < 0.76: out.append('ar:' + rng.choice(list(ARG_SRC)))
         elif r < 0.81: out.append('nd')
         elif r < 0.86: out.append('if')
@@ -432,7 +609,10 @@ def gen_body(rng, depth, leaky, inlist, havecls):
         elif r < 0.93 and havecls: out.append('ix')
         elif r < 0.96: out.append('uc:%d' % rng.choice([90, 89, 99, 108, 81]))
         elif leaky:
-            out.append(rng.choice(['as:%d:%d' % (rng.randrange(4), rng.randint(-3, 40)), 'as:0:%d' % rng.randint(1, 9), 'nc:%d' % rng.choice([90, 89])]))
+            fam = rng.choice(FAMILIES)
+            out.append(rng.choice(['as:%d:%d' % (rng.randrange(len(REGS)), rng.randint(-3, 40)), 'as:0:%d' % rng.randint(1, 9),
+                                   'cp:%d:%d' % (rng.choice(fam), rng.choice(fam)), 'cp:%d:%d' % (rng.choice(fam), rng.choice(fam)),
+                                   'nc:%d' % rng.choice([90, 89])]))
     return out
 
 
@@ -466,7 +646,7 @@ def gen_state(rng):
     en = int(lv >= 0)      # the \usepackage lines every event document starts with re-derive `enabled` from the level anyway
     return 'S %d %d %d %d %d %d E%s R%s C%s' % (
         en, lv, int(rng.random() < 0.15), int(rng.random() < 0.15), rng.choice([0, 0, 1, 2, 3, 4, 5, -1]), rng.randrange(2),
-        env or '-', ','.join(str(rng.randint(0, 30)) for _ in range(4)), ','.join(map(str, cols)) or '-')
+        env or '-', ','.join(str(rng.randint(0, 30)) for _ in range(len(REGS))), ','.join(map(str, cols)) or '-')
 
 
 def mkcase(stream, bits, state, docs, origin='gen'):
@@ -487,6 +667,8 @@ def generate(ctx):
     for i in range(n):
         k = rng.choice([1, 1, 2, 3])
         yield mkcase('gleak', bits, gen_state(rng) if rng.random() < 0.8 else 'I', [gen_event_doc(rng, True) for _ in range(k)])
+    for i in range(400 if ctx.tier == 'quick' else 8000):
+        yield gen_ccache(rng, 'L' if i % 2 == 0 else 'A')
 
 
 WITNESS = {   # leak -> (history, needs which variant bit)
@@ -508,12 +690,26 @@ def corpus():
            mkcase('gstate', bits, 'I', [['lb', 'lb', 'lb', 'lb', 'lb', 'it'], ['it', 'lb', 'it']], 'corpus'),
            mkcase('gstate', bits, 'I', [['bo', 'ar:any', 'D'], ['as:1:3', 'us:1']], 'corpus'),
            mkcase('gstate', bits, 'I', [['if', 'pm'], ['pm', 'if', 'nd']], 'corpus'),
-           mkcase('gleak', bits, 'S 1 -1 1 0 5 1 Enm R1,2,3,4 C90', [['dc:book', 'D', 'it', 'lb', 'it', 'as:0:5', 'us:0', 'pm', 'ix', 'uc:90', 'uc:89']], 'corpus')]
+           mkcase('gleak', bits, 'S 1 -1 1 0 5 1 Enm R1,2,3,4,5,6,7,8,9,10 C90', [['dc:book', 'D', 'it', 'lb', 'it', 'as:0:5', 'us:0', 'cp:8:9', 'cp:4:5', 'us:4', 'as:9:2', 'pm', 'ix', 'uc:90', 'uc:89']], 'corpus'),
+           # register copies of every family (the operand is read as an internal quantity by readNumber/readDimen/readGlue/readMuGlue)
+           mkcase('gstate', bits, 'I', [['dc:book', 'us:4', 'us:6', 'ar:numreg', 'ar:dimenreg', 'ar:gluereg'], ['cp:8:9', 'cp:6:7', 'cp:4:5', 'cp:0:1', 'as:8:6', 'as:4:3', 'as:6:2']], 'corpus'),
+           mkcase('gleak', bits, 'I', [['cp:8:9'], ['as:0:5', 'us:0'], ['cp:6:7', 'cp:4:5'], ['bo', 'cp:0:1', 'bc', 'as:3:9', 'us:3']], 'corpus')]
     return cs
 
 
 def shrink(ctx, o, evaluate):
     """drop whole documents, then single events, while the property still fails"""
+    if o.case.stream == 'ccache':       # drop lookups while the property still fails
+        head, seq = o.case.line.split(' | ')
+        seq, best, improved = seq.split(), o, True
+        while improved and len(seq) > 1:
+            improved = False
+            cs = [Case('ccache', '%s | %s' % (head, ' '.join(seq[:i] + seq[i + 1:])), o.case.meta, 'shrink') for i in range(len(seq))]
+            for i, r in enumerate(evaluate(cs)):
+                if not r.prop_ok:
+                    best, seq, improved = r, seq[:i] + seq[i + 1:], True
+                    break
+        return best
     if o.case.stream != 'gstate':
         return o
     head, body = o.case.line.split(' | ')
@@ -628,14 +824,19 @@ class LatexGen:
         if r < 0.61: return '\\hbox{%s $%s$ %s}' % (self.w(), self.math(), self.w())
         if r < 0.65: return '\\ifthenelse{%d<%d}{%s}{%s}' % (self.rng.randint(0, 5), self.rng.randint(0, 5), self.w(), self.w())
         if r < 0.69: return '\\ifthenelse{\\(1<2\\) \\and \\not \\(3<2\\)}{$%s$}{%s}' % (self.math(), self.w())
-        if r < 0.73: return '\\hskip\\%s\\relax ' % self.rng.choice(REGS)
+        if r < 0.73: return '\\hskip\\%s\\relax ' % self.rng.choice(SKIPREGS)
         if r < 0.76: return '\\openout\\vout=%s ' % self.w()
         if r < 0.80: return '\\mycmd{%s}' % self.w()
         if r < 0.83: return '\\stepcounter{mycnt}\\themycnt '
         if r < 0.86: return '\\footnote{%s}' % self.w()
         if r < 0.89: return '\\index{%s}' % self.w()
         if r < 0.92: return '\\ref{L%d}' % self.rng.randrange(self.nlabels + 1)     # backward, forward and undefined references
-        if r < 0.95 and self.leaky: return '\\%s=%dpt\\relax ' % (self.rng.choice(REGS), self.rng.randint(1, 30))
+        if r < 0.94 and self.leaky:
+            i = self.rng.randrange(len(REGS))
+            return '\\%s=%d%s\\relax ' % (REGS[i], self.rng.randint(1, 30), UNIT[FAM[i]])
+        if r < 0.96 and self.leaky:      # a register copied from another one of its family (count, dimen, glue, math glue)
+            fam = self.rng.choice(FAMILIES)
+            return '\\%s=\\%s\\relax ' % (REGS[self.rng.choice(fam)], REGS[self.rng.choice(fam)])
         if r < 0.97 and self.leaky: return '\\vskip\\parindent\\relax\\parindent=2\\parindent\\relax '
         return self.w()
 
@@ -657,20 +858,66 @@ class LatexGen:
             cols = [self.rng.choice(['l', 'c', 'r', 'p{2cm}', 'Z' if self.rng.random() < 0.3 else 'c']) for _ in range(self.rng.randint(1, 3))]
             rows = '\\\\\n'.join(' & '.join(self.inline() for _ in cols) for _ in range(self.rng.randint(1, 3)))
             return '\\begin{tabular}{%s}\n%s\n\\end{tabular}\n\n' % (('|' if self.rng.random() < 0.3 else '').join(cols), rows)
-        if r < 0.86: return '\\begin{quote}%s\\end{quote}\n' % self.para()
-        if r < 0.92: return '\\begin{center}%s\\end{center}\n' % self.para()
-        return '\\begin{figure}%s\\caption{%s}\\end{figure}\n' % (self.para(), self.w())
+        if r < 0.83: return '\\begin{quote}%s\\end{quote}\n' % self.para()
+        if r < 0.86: return '\\begin{center}%s\\end{center}\n' % self.para()
+        if r < 0.89: return '\\begin{figure}%s\\caption{%s}\\end{figure}\n' % (self.para(), self.w())
+        return self.family_block()
+
+    def family_block(self):
+        """environments that come in families of derived classes with their own nested macros (row terminators, captions,
+        items): numbered/unnumbered equation arrays, the array/tabular/tabular*/longtable family, bibliographies, floats, amsmath"""
+        rng = self.rng
+        kinds = ['eqnarray', 'eqnarray*', 'array', 'tabular*', 'thebibliography', 'table', 'minipage', 'verbatim', 'tabbing']
+        if 'longtable' in self.pkgs: kinds += ['longtable', 'longtable']
+        if 'amsmath' in self.pkgs: kinds += ['align', 'align*', 'gather', 'multline*', 'cases']
+        k = rng.choice(kinds)
+        rows = rng.randint(1, 4)
+        if k in ('eqnarray', 'eqnarray*', 'align', 'align*', 'gather'):
+            labs, lines = [], []
+            for i in range(rows):
+                lab = ''
+                if rng.random() < 0.6 and not k.endswith('*'):
+                    self.neq += 1
+                    labs.append('E%d' % self.neq)
+                    lab = '\\label{E%d}' % self.neq
+                sep = ' & = & ' if k.startswith('eqnarray') else ' & = ' if k.startswith('align') else ' = '
+                lines.append('%s%s%s %s' % (self.math(), sep, self.math(), lab))
+            refs = ' '.join('\\ref{%s}' % l for l in labs)
+            return '\\begin{%s}\n%s\n\\end{%s}\nRows %s.\n\n' % (k, ' \\\\\n'.join(lines), k, refs)
+        if k in ('multline*', 'cases'):
+            body = ' \\\\ '.join('%s & %s' % (self.math(), self.w()) if k == 'cases' else self.math() for _ in range(rows))
+            return ('$$x = \\begin{cases}%s\\end{cases}$$\n' if k == 'cases' else '\\begin{multline*}%s\\end{multline*}\n') % body
+        if k == 'array':
+            return '$$\\begin{array}{lc}%s\\end{array}$$\n' % ' \\\\ '.join('%s & %s' % (self.math(), self.math()) for _ in range(rows))
+        if k == 'tabular*':
+            return '\\begin{tabular*}{5cm}{l|r}\n%s\n\\end{tabular*}\n\n' % ' \\\\ \\hline\n'.join('%s & %s' % (self.w(), self.inline()) for _ in range(rows))
+        if k == 'longtable':
+            head = '\\caption{%s}\\\\\n\\hline %s & %s \\\\ \\hline\n\\endhead\n' % (self.w(), self.w(), self.w()) if rng.random() < 0.7 else ''
+            return '\\begin{longtable}{l|c}\n%s%s\n\\end{longtable}\n\n' % (head, ' \\\\\n'.join('%s & %s' % (self.w(), self.inline()) for _ in range(rows)))
+        if k == 'thebibliography':
+            items = ''.join('\\bibitem{B%d} %s\n' % (i, self.para()) for i in range(rows))
+            return 'See \\cite{B0}.\n\\begin{thebibliography}{9}\n%s\\end{thebibliography}\n' % items
+        if k == 'table':
+            self.neq += 1
+            return ('\\begin{table}\\caption{%s}\\label{E%d}\\begin{tabular}{ll}%s & %s\\\\ %s & %s\\end{tabular}\\end{table}\nTable \\ref{E%d}.\n\n'
+                    % (self.w(), self.neq, self.w(), self.w(), self.w(), self.inline(), self.neq))
+        if k == 'minipage':
+            return '\\begin{minipage}{4cm}%s\\footnote{%s}\\end{minipage}\n\n' % (self.para(), self.w())
+        if k == 'verbatim':
+            return '\\begin{verbatim}\n%s $x$ \\item {\n\\end{verbatim}\n' % self.w()
+        return '\\begin{tabbing}%s \\= %s \\\\ %s \\> %s\\end{tabbing}\n' % (self.w(), self.w(), self.w(), self.w())
 
     def make(self):
         rng = self.rng
         self.labels = []
         self.nlabels = rng.randint(0, 4)
+        self.neq = 0
         cls = rng.choice(['book', 'report', 'article'] if self.leaky else ['book', 'report'])
         pre = '\\documentclass{%s}\n\\usepackage{ifthen}\n' % cls
         if self.leaky and rng.random() < 0.4:
             pre += '\\usepackage{verifcol}\\verifnewcol{Z}\n'
-        if rng.random() < 0.4:
-            pre += '\\usepackage{%s}\n' % rng.choice(['amsmath', 'graphicx', 'color', 'hyperref', 'longtable', 'array', 'makeidx'])
+        self.pkgs = [p for p in ['amsmath', 'graphicx', 'color', 'hyperref', 'longtable', 'array', 'makeidx', 'natbib'] if rng.random() < 0.2]
+        pre += ''.join('\\usepackage{%s}\n' % p for p in self.pkgs)
         pre += '\\newcommand{\\mycmd}[1]{[#1]}\\newcounter{mycnt}\n'
         if rng.random() < 0.3:
             pre += '\\title{%s}\\author{%s}\n' % (self.w(), self.w())
@@ -729,7 +976,9 @@ def check_history(srcs, render, init_snap):
             det = first_diff(seq[i].get('xml', ''), alone.get('xml', '')) if seq[i].get('xml') != alone.get('xml') else {}
             return 'document %d of %d: %s' % (i + 1, len(srcs), why), det
         # the in-particular clause: class-level state after every document but the (possibly leaky) last one
-        if i < len(srcs) - 1 and seq[i]['snap'] != init_snap:
+        # (for the last document, which may assign registers / load article / define column types, those three fields are left open)
+        loose = (lambda x: re.sub(r' (regs|ix|cols)=\S+', '', x)) if i == len(srcs) - 1 else (lambda x: x)
+        if loose(seq[i]['snap']) != loose(init_snap):
             return 'class-level state after document %d differs from its initial value: %s (initial %s)' % (i + 1, seq[i]['snap'], init_snap), {}
     return None, None
 
@@ -790,7 +1039,7 @@ LATEX_WITNESS = {
 
 def extra_checks(ctx):
     rng = _random.Random(ctx.seed * 13 + 5)
-    n, nr = (40, 20) if ctx.tier == 'quick' else (700, 300)
+    n, nr = (70, 30) if ctx.tier == 'quick' else (700, 300)
     viol, stats = pair_checks(ctx, rng, n, nr)
     return viol, stats
 
